@@ -4,11 +4,10 @@
   `state.Clear()` — the length guard `length > maxOriginResidues`, `Request(toOriginLength(length))`,
   the choice between the fast path `validateOrigin` and the slow path `slowGenBankOriginParser`, the
   check for a further sequence line — is REGENERATED as `Gen.originReaderTail` and proved equal,
-  for every remaining input and every declared length that passes the guard, to what the model's
-  reader `Gts.Origin.originParser` does behind its `Pars.clear` (`readerTail`, `tailP_run`,
-  `originParser_split`).  Beyond the guard the code returns an error; the model
-  `Origin.originParser` has no such guard and goes on (it then needs more than a gigabyte of input
-  for `Request` to succeed): `originReaderTail_eq` states both cases.
+  for every remaining input and EVERY declared length, to what the model's reader
+  `Gts.Origin.originParser` does behind its `Pars.clear` (`readerTail`, `tailP_run`,
+  `originParser_split`), the length guard of /repo be672b0 included: `originParser_gen` is the
+  unguarded equality "model reader = hand-modelled head; regenerated tail".
 -/
 import Gts.Gen.OriginReader
 import Gts.Bridge.OriginValidate
@@ -61,6 +60,7 @@ theorem nextCheck_other (buf r : Bytes) (c : UInt8) (hc : c ≠ 32) : nextCheck 
 /-- what the model's reader `Origin.originParser` does behind `Pars.clear`, as a function of the
 remaining input: the Origin buffer and the remaining input -/
 def readerTail (length : Int) (st : Bytes) : Out (Bytes × Bytes) :=
+  if length > 1000000020 then .error .fail else
   let n := Origin.toOriginLength length
   if n < 0 then .error .panic else
   if st.length < n.toNat then .error .fail else
@@ -95,22 +95,21 @@ theorem tail_check (b st' : Bytes) :
 
 /-- **the ORIGIN reader behind `state.Clear()`, as written in genbank_subparsers.go** (with the
 regenerated `validateOrigin` and `slowGenBankOriginParser` inside), run on the remaining input `st`:
-a declared length beyond `maxOriginResidues` is an error; otherwise the outcome is the model
-reader's (`readerTail`): the same Origin buffer (unparsed) and remaining input, the same error, the
-same panic — every input, every declared length, any fuel that covers the trip counts.  The guard
+the outcome is the model reader's (`readerTail`): a declared length beyond `maxOriginResidues` is an
+error, otherwise the same Origin buffer (unparsed) and remaining input, the same error, the same
+panic — every input, every declared length, any fuel that covers the trip counts.  The guard
 dropped or weakened, the paths exchanged, `Advance` forgotten, the check for a further sequence
 line dropped: each breaks this proof or `originReaderFrame_eq`. -/
 theorem originReaderTail_eq (fuel : Nat) (length : Int) (st tok gb0 : Bytes) (gb1 : Bool) (h10 : 10 ≤ fuel)
     (hl : length ≤ 60 * (fuel : Int)) :
     Gen.originReaderTail fuel fmt9 splitLine length st tok gb0 gb1 =
-      if length > Gen.maxOriginResidues then .error .fail else
       match readerTail length st with
       | .error e => .error e
       | .ok (b, r) => .ok (b, false, r) := by
   simp only [Gen.originReaderTail, readerTail, toOriginLength_eq]
   by_cases hg : length > Gen.maxOriginResidues
-  · rw [if_pos hg, if_pos hg]
-  · rw [if_neg hg, if_neg hg]
+  · rw [if_pos hg, if_pos (show length > 1000000020 from hg)]
+  · rw [if_neg hg, if_neg (show ¬ length > 1000000020 from hg)]
     by_cases hneg : Origin.toOriginLength length < 0
     · rw [if_pos hneg, if_neg (show ¬ ((st.length : Int) < Origin.toOriginLength length) by omega)]
       simp only [Gen.goSliceTo]
@@ -140,6 +139,7 @@ theorem originReaderTail_eq (fuel : Nat) (length : Int) (st tok gb0 : Bytes) (gb
 
 /-- the rest of `Origin.originParser` behind `Pars.clear` (a copy of its text) -/
 def tailP (length : Int) : P Bytes := do
+  if length > 1000000020 then Pars.fail
   let n := Origin.toOriginLength length
   if n < 0 then Pars.panic
   let p ← (do
@@ -173,6 +173,9 @@ theorem tailP_run (length : Int) (s : PS) :
     | .ok (b, r) => tailP length s = (.ok b, { s with rest := r })
     | .error e => (tailP length s).1 = .error e := by
   unfold tailP readerTail
+  by_cases hg : length > 1000000020
+  · simp [P.bind_run, Pars.fail, hg]
+  simp only [hg, if_false]
   by_cases hneg : Origin.toOriginLength length < 0
   · simp [P.bind_run, Pars.panic, hneg]
   · obtain ⟨n, hn⟩ : ∃ n : Nat, Origin.toOriginLength length = (n : Int) :=
@@ -222,10 +225,10 @@ def headP (depth : Int) : P Unit := do
 
 /-- **the model's ORIGIN reader `Origin.originParser` is the hand-modelled head (field name, rest
 of the line, `Clear`) followed by the REGENERATED rest of `makeGenbankOriginParser`** — for every
-state, every declared length that passes the code's guard `length > maxOriginResidues`, any fuel
-that covers the trip counts: same Origin buffer and remaining input, same error, same panic. -/
+state and EVERY declared length (the length guard of be672b0 is part of both sides), any fuel that
+covers the trip counts: same Origin buffer and remaining input, same error, same panic. -/
 theorem originParser_gen (fuel : Nat) (length depth : Int) (tok gb0 : Bytes) (gb1 : Bool)
-    (hg : ¬ length > Gen.maxOriginResidues) (h10 : 10 ≤ fuel) (hl : length ≤ 60 * (fuel : Int)) (s : PS) :
+    (h10 : 10 ≤ fuel) (hl : length ≤ 60 * (fuel : Int)) (s : PS) :
     match headP depth s with
     | (.error e, _) => (Origin.originParser length depth s).1 = .error e
     | (.ok (), s1) =>
@@ -242,7 +245,7 @@ theorem originParser_gen (fuel : Nat) (length depth : Int) (tok gb0 : Bytes) (gb
   | ok u =>
     cases u
     dsimp only
-    rw [originReaderTail_eq fuel length s1.rest tok gb0 gb1 h10 hl, if_neg hg]
+    rw [originReaderTail_eq fuel length s1.rest tok gb0 gb1 h10 hl]
     have ht := tailP_run length s1
     revert ht
     cases readerTail length s1.rest with
